@@ -368,6 +368,61 @@ Section Lemmas.
   Qed.
 End Lemmas.
 
+(* ===================== the concrete UTF-8 encoder is injective =====================
+   (str.encode of the correspondence stream; removes the utf8_inj premise for the concrete encoder) *)
+Section Utf8.
+Open Scope N_scope.
+Ltac Zify.zify_post_hook ::= Z.to_euclidean_division_equations.
+Opaque N.add N.div N.modulo N.mul.
+Lemma utf8_cp_prefix_free : forall c c' x x' r r',
+  utf8_cp c = Some x -> utf8_cp c' = Some x' -> x ++ r = x' ++ r' -> c = c'.
+Proof.
+  intros c c' x x' r r'. unfold utf8_cp.
+  destruct (N.ltb_spec c 128); [|destruct (N.ltb_spec c 2048); [|destruct (N.ltb_spec c 65536);
+    [destruct ((55296 <=? c) && (c <? 57344)); [discriminate|]|destruct (N.ltb_spec c 1114112); [|discriminate]]]];
+  (destruct (N.ltb_spec c' 128); [|destruct (N.ltb_spec c' 2048); [|destruct (N.ltb_spec c' 65536);
+    [destruct ((55296 <=? c') && (c' <? 57344)); [discriminate|]|destruct (N.ltb_spec c' 1114112); [|discriminate]]]]);
+  intros E E' A; inversion E; inversion E'; subst; cbn [app] in A; inversion A; try lia.
+Qed.
+
+
+Lemma utf8_cp_nonempty : forall c x, utf8_cp c = Some x -> x <> [].
+Proof.
+  intros c x. unfold utf8_cp.
+  destruct (c <? 128); [|destruct (c <? 2048); [|destruct (c <? 65536);
+    [destruct ((55296 <=? c) && (c <? 57344))|destruct (c <? 1114112)]]];
+  intro E; try discriminate; inversion E; discriminate.
+Qed.
+Transparent N.add N.div N.modulo N.mul.
+
+Theorem utf8_enc_inj : forall s t b, utf8_enc s = Some b -> utf8_enc t = Some b -> s = t.
+Proof.
+  induction s as [|c s IH]; intros [|c' t] b E E'; cbn [utf8_enc] in E, E'.
+  - reflexivity.
+  - exfalso. inversion E; subst.
+    destruct (utf8_cp c') as [x'|] eqn:C'; [|discriminate]. destruct (utf8_enc t); [|discriminate].
+    destruct x' as [|h x']; [exact (utf8_cp_nonempty _ _ C' eq_refl)|]. cbn in E'. inversion E'.
+  - exfalso. inversion E'; subst.
+    destruct (utf8_cp c) as [x|] eqn:C; [|discriminate]. destruct (utf8_enc s); [|discriminate].
+    destruct x as [|h x]; [exact (utf8_cp_nonempty _ _ C eq_refl)|]. cbn in E. inversion E.
+  - destruct (utf8_cp c) as [x|] eqn:C; [|discriminate]. destruct (utf8_enc s) as [y|] eqn:S; [|discriminate].
+    destruct (utf8_cp c') as [x'|] eqn:C'; [|discriminate]. destruct (utf8_enc t) as [y'|] eqn:T; [|discriminate].
+    inversion E; inversion E'; subst.
+    assert (c = c') by (eapply utf8_cp_prefix_free; eauto). subst c'.
+    rewrite C in C'. inversion C'; subst x'.
+    match goal with A : _ ++ _ = _ ++ _ |- _ => apply app_inv_head in A; subst end.
+    f_equal. eapply IH; eauto.
+Qed.
+
+(* "every other text secret fails" with the concrete encoder: only the hash idealisation is left *)
+Theorem challenge_other_str_fails_utf8 : forall (H : N -> bytes -> bytes),
+  (forall a x y, H a x = H a y -> x = y) ->
+  forall a salt s t bs bt,
+  utf8_enc s = Some bs -> utf8_enc t = Some bt -> s <> t ->
+  challenge H utf8_enc (stored_of a salt (H a (salt ++ bs))) (PStr t) = Err EValue.
+Proof. intros H HI. exact (challenge_other_str_fails H utf8_enc HI utf8_enc_inj). Qed.
+End Utf8.
+
 (* ===================== non-vacuity: the hypotheses are satisfiable ===================== *)
 (* toy primitives: "base64" and "utf-8" are the identity; two toy hashes, one for each law (no function
    to fixed-length BYTE strings is injective — H_inj is an idealisation and is never combined with H_len) *)
